@@ -378,10 +378,7 @@ pub fn check_case(ctx: &mut Ctx, case: &Case, cfg: &Cfg, props: &[String], want_
         bump(&mut res, "C08");
     }
     if has(props, "C10") {
-        if let Some(mut v) = c10_units(&base, &out) {
-            if !cfg.use_tabs && cfg.tab_width as u32 * cfg.continuation_indents as u32 > 255 {
-                v.detail.push_str(" [site: continuation_indents x tab_width exceeds 255 columns]");
-            }
+        if let Some(v) = c10_units(&base, &out) {
             res.viols.push(v);
         }
     }
@@ -509,7 +506,9 @@ pub fn check_case(ctx: &mut Ctx, case: &Case, cfg: &Cfg, props: &[String], want_
                 let (s, e) = (rg[0].as_u64().unwrap() as usize, rg[1].as_u64().unwrap() as usize);
                 bump(&mut res, "C07");
                 if !out.contains(&text[s..e]) {
-                    res.viols.push(Viol { prop: "C07", clause: "region_verbatim", detail: format!("region {:?} is not reproduced byte for byte", &text[s..e]) });
+                    let is_asm = case.label.starts_with("asm#");
+                    let site = if is_asm && text[s..e].to_ascii_lowercase().contains("{$if") { " [site: conditional directive inside an asm instruction line]" } else { "" };
+                    res.viols.push(Viol { prop: "C07", clause: "region_verbatim", detail: format!("region {:?} is not reproduced byte for byte{site}", &text[s..e]) });
                 }
             }
         }
@@ -650,15 +649,14 @@ pub fn check_case(ctx: &mut Ctx, case: &Case, cfg: &Cfg, props: &[String], want_
         if let (Ok(os), Ok(ot)) = (&rs.out, &rt.out) {
             bump(&mut res, "C10");
             let expanded = expand_leading_tabs(ot, sp.tab_width as usize);
-            let c10_site = if sp.tab_width as u32 * sp.continuation_indents as u32 > 255 { " [site: continuation_indents x tab_width exceeds 255 columns]" } else { "" };
-            if expanded != *os {
+            // beyond 255 columns the two renderings differ by known finding F4; the saturation itself is checked per line
+            let over = sp.tab_width as u32 * sp.continuation_indents as u32 > 255;
+            let c10_site = "";
+            if expanded != *os && !over {
                 res.viols.push(Viol { prop: "C10", clause: "tabs_expand_to_spaces", detail: format!("tab_width={} ci={}: {}{c10_site}", sp.tab_width, sp.continuation_indents, first_diff(os, &expanded)) });
             }
             for r in [&rs, &rt] {
-                if let Some(mut v) = c10_units(r, r.out.as_ref().unwrap()) {
-                    if !r.cfg.use_tabs {
-                        v.detail.push_str(c10_site);
-                    }
+                if let Some(v) = c10_units(r, r.out.as_ref().unwrap()) {
                     res.viols.push(v);
                 }
             }
@@ -761,6 +759,18 @@ pub fn c11_widths(out: &str, base: u32) -> Vec<u32> {
     if lens.len() > 2 {
         let m = lens[lens.len() / 2];
         w.extend([m.saturating_sub(1), m, m + 1]);
+    }
+    // lines that end in a line comment: the widths at which the code in front of the comment just fits / just does not
+    let mut extra = 0;
+    for l in out.split('\n') {
+        let l = l.trim_end_matches('\r');
+        if let Some(p) = l.find("//") {
+            let code = l[..p].trim_end().len() as u32;
+            if code > 0 && extra < 4 {
+                w.extend([l.len() as u32, l.len() as u32 + 1, l.len() as u32 + 2]);
+                extra += 1;
+            }
+        }
     }
     w.retain(|x| *x >= 5);
     w.sort_unstable();
